@@ -36,7 +36,7 @@ ASSUMPTIONS = [
     "plain-data (pod) reads are judged by byte closure: writing the pod value back must give the original bytes",
     "any exception counts as rejection of an out-of-limit value",
 ]
-MUST_REACH = {"recursive_spec_values_with_children": 100, "size_queries_repeated": 5000, "programs": 300, "roundtrips": 2000, "classes_covered": 45, "ood_probes_rejected": 50,
+MUST_REACH = {"values_looked_at_after_the_reader_moved_on": 2000, "unknown_values_under_catch_all_enum": 30, "recursive_spec_values_with_children": 100, "size_queries_repeated": 5000, "programs": 300, "roundtrips": 2000, "classes_covered": 45, "ood_probes_rejected": 50,
               "greedy_programs": 30, "trailing_bytes_checks": 500, "fixed_size_checks": 300, "pod_closures": 1000}
 
 
@@ -134,7 +134,16 @@ def _check_program(ctx, pseed, depth, n_values=4):
                     r = se.BufferReader(endian, data + tr, pod=pod)
                     try:
                         out = r.read(spec)
+                        consumed = r.tell()
+                        # what was read is the caller's now; the reader goes on to other things (another byte order, the other
+                        # mode) before the caller looks at the value - values that are decoded on first touch included
+                        if (vseed + len(tr)) % 2:
+                            r.endianness = ">" if endian == "<" else "<"
+                            r.pod = not pod
+                            ctx.count("values_looked_at_after_the_reader_moved_on")
                         canon_out = gen_spec.canon(out)
+                        r.endianness, r.pod = endian, pod
+                        r.seek(consumed)
                     except Exception as e:
                         ctx.violation("read-raises" + (":trailing" if tr else "") + (":pod" if pod else ""),
                                       "reading back what was written raised",
@@ -288,6 +297,8 @@ def run(ctx):
         if ctx.violations.get("no-progress", {}).get("count", 0) >= 2:
             ctx.count("stopped_after_repeated_no_progress")
             break
+    for k, v in gen_spec.STATS.items():
+        ctx.count(k, v)
 
 
 def replay(ctx, w):
